@@ -15,12 +15,14 @@ func init() {
 			ID: "C20", Title: "Received UPDATEs are applied NLRI by NLRI", Level: "other",
 			Technique:   "cursor rule (dependence necessity on the typed AST): per-element fields must be read through the loop cursor; per-iteration freshness of the path object handed to the Adj-RIB-In; nil-safety of the optional NLRI list; family gates by guard extraction",
 			DesignRef:   "DESIGN.md §4 C20",
-			Decided:     "(0) path identifiers are opaque values: compared only with other path identifiers, never with a constant, so a withdrawal or announcement with identifier 0 touches exactly the path with that identifier; (1) in every loop over a linked NLRI list in the UPDATE processing of package server (IPv4 announce/withdraw, multiprotocol announce/withdraw) the per-NLRI fields PathIdentifier and Prefix are read from the loop cursor only — a read through the list head can only ever yield the first NLRI's value — and the path handed to AddPath/RemovePath gets its identifier from the cursor inside the loop; (2) the path object handed to the Adj-RIB-In's AddPath is created or copied inside the iteration (the Adj-RIB-In keeps the pointer and writes into it); (3) the NLRI list of a multiprotocol attribute, which the decoder leaves nil when only a next hop is present, is dereferenced only as loop cursor; (4) each family processes only its own AFI/SAFI and the IPv4 lists only for the IPv4 family; received attributes are copied into every path by processAttributes (one call per path object or before the per-NLRI copies).",
+			Decided:     "(0) path identifiers are opaque values: compared only with other path identifiers, never with a constant, so a withdrawal or announcement with identifier 0 touches exactly the path with that identifier; (0b) every walk over the path attribute list in the UPDATE processing visits every attribute: an early exit is allowed only where the conditions establish that everything the loop collects is already set; (1) in every loop over a linked NLRI list in the UPDATE processing of package server (IPv4 announce/withdraw, multiprotocol announce/withdraw) the per-NLRI fields PathIdentifier and Prefix are read from the loop cursor only — a read through the list head can only ever yield the first NLRI's value — and the path handed to AddPath/RemovePath gets its identifier from the cursor inside the loop; (2) the path object handed to the Adj-RIB-In's AddPath is created or copied inside the iteration (the Adj-RIB-In keeps the pointer and writes into it); (3) the NLRI list of a multiprotocol attribute, which the decoder leaves nil when only a next hop is present, is dereferenced only as loop cursor; (4) each family processes only its own AFI/SAFI and the IPv4 lists only for the IPv4 family; received attributes are copied into every path by processAttributes (one call per path object or before the per-NLRI copies).",
 			NotDecided:  "that the Adj-RIB-In applies each call correctly (C05); equality of the installed set with the announced set over generated UPDATEs.",
 			TrustedBase: stdTrusted,
 		},
 		Run: runC20,
 		Controls: []Control{
+			{Name: "attribute-walk-stops-at-first-mp-attribute", File: "protocols/bgp/server/fsm_address_family.go", Old: "\t\t\tur := pa.Value.(packet.MultiProtocolUnreachNLRI)\n\t\t\tunreach = &ur\n\t\t}\n", New: "\t\t\tur := pa.Value.(packet.MultiProtocolUnreachNLRI)\n\t\t\tunreach = &ur\n\t\t}\n\n\t\tif reach != nil || unreach != nil {\n\t\t\tbreak\n\t\t}\n", Expect: "attribute-walk-is-complete"},
+			{Name: "refactor-attribute-walk-stops-when-both-found", Silent: true, File: "protocols/bgp/server/fsm_address_family.go", Old: "\t\t\tur := pa.Value.(packet.MultiProtocolUnreachNLRI)\n\t\t\tunreach = &ur\n\t\t}\n", New: "\t\t\tur := pa.Value.(packet.MultiProtocolUnreachNLRI)\n\t\t\tunreach = &ur\n\t\t}\n\n\t\tif reach != nil && unreach != nil {\n\t\t\tbreak\n\t\t}\n"},
 			{Name: "withdraw-with-identifier-zero-matches-all", File: "routingtable/adjRIBIn/adj_rib_in.go", Old: "\t\t\tif p != nil && path.BGPPath.PathIdentifier != p.BGPPath.PathIdentifier {", New: "\t\t\tif p != nil && p.BGPPath.PathIdentifier != 0 && path.BGPPath.PathIdentifier != p.BGPPath.PathIdentifier {", Expect: "path-identifier-is-opaque"},
 			{Name: "ipv4-announce-uses-first-identifier", File: "protocols/bgp/server/fsm_address_family.go", Old: "path.BGPPath.PathIdentifier = r.PathIdentifier", New: "path.BGPPath.PathIdentifier = u.NLRI.PathIdentifier", Expect: "per-nlri-fields-from-cursor"},
 			{Name: "mp-announce-shares-path-object", File: "protocols/bgp/server/fsm_address_family.go", Old: "\t\tp := path.Copy()\n\t\tp.BGPPath.PathIdentifier = n.PathIdentifier\n\n\t\tf.adjRIBIn.AddPath(n.Prefix, p)", New: "\t\tp := path\n\t\tp.BGPPath.PathIdentifier = n.PathIdentifier\n\n\t\tf.adjRIBIn.AddPath(n.Prefix, p)", Expect: "fresh-path-per-nlri"},
@@ -32,6 +34,7 @@ func init() {
 func runC20(c *core.Ctx) {
 	p := c.P
 	pathIDOpaque(c, "path-identifier-is-opaque")
+	attributeWalkComplete(c)
 	const pkt = "protocols/bgp/packet"
 	pidF, pfxF, nextF := p.Field(pkt, "NLRI", "PathIdentifier"), p.Field(pkt, "NLRI", "Prefix"), p.Field(pkt, "NLRI", "Next")
 	pathPID := p.Field("route", "BGPPath", "PathIdentifier")
